@@ -125,7 +125,7 @@ def _short(x):
 # ----------------------------------------------------------------------------- contract installation
 
 _SINK = []          # records produced by the wrappers, drained by the running case
-_STATE = {"direct": False, "concurrent": False, "stack": [], "installed": False}
+_STATE = {"direct": False, "concurrent": False, "stack": [], "installed": False, "inject": None}
 
 
 def install_contracts():
@@ -155,6 +155,14 @@ def install_contracts():
             if _STATE["stack"]:
                 _STATE["stack"][-1].append(rec)
             raise
+        inj = _STATE.get("inject")
+        if inj is not None and result:
+            # (restart scenario) another handle repacks the repository between this plan and its execution
+            _STATE["inject"] = None
+            try:
+                inj()
+            except Exception as e:
+                rec["inject_error"] = repr(e)[:200]
         try:
             total = sum(rec["counts"])
             positive = all(isinstance(c, int) and c > 0 for c in rec["counts"])
@@ -179,7 +187,7 @@ def install_contracts():
             _STATE["stack"][-1].append(rec)
         return result
 
-    def _do_autopack(self):
+    def _do_autopack(self, *a, **kw):
         rec = {"kind": "autopack", "concurrent": _STATE["concurrent"]}
         try:
             rec["n0"] = len(self._names)
@@ -193,7 +201,7 @@ def install_contracts():
         _STATE["stack"].append(plans)
         try:
             try:
-                r = orig_auto(self)
+                r = orig_auto(self, *a, **kw)
             finally:
                 _STATE["stack"].pop()
         except BaseException as e:
@@ -597,6 +605,50 @@ class Live:
         self.ptr += a + b
         self.T = None
 
+    def restart(self):
+        """A stale handle whose next pack makes ten: its autopack plans over the packs it loaded, finds them repacked by
+        another handle meanwhile (which also added a revision), reloads and has to plan again for the new total."""
+        from breezy.repository import Repository
+
+        while True:
+            counts, total, nrev = self.observe()
+            if len(counts) >= 9:
+                break
+            self.fetch(1)  # (an autopack may fire on the way; keep going until nine packs are there)
+            if self.ptr > 60:
+                self.ctx.hist("live:restart:could-not-reach-nine-packs")
+                return
+        self.need(self.ptr + 2)
+        src = self.S.branch.repository
+        A = Repository.open(self.tpath)
+        B = Repository.open(self.tpath)
+        B.lock_write()
+        try:
+            B.has_revision(self.srevs[0])  # loads pack-names now
+            fired = []
+
+            def other_handle():
+                # runs right after B planned its autopack: A adds the tenth pack of its own view and autopacks everything
+                fired.append(1)
+                st, _STATE["stack"] = _STATE["stack"], []
+                try:
+                    A.fetch(src, revision_id=self.srevs[self.ptr + 1])
+                finally:
+                    _STATE["stack"] = st
+            _STATE["inject"] = other_handle
+            _STATE["concurrent"] = True
+            try:
+                B.fetch(src, revision_id=self.srevs[self.ptr])
+            finally:
+                _STATE["concurrent"] = False
+                _STATE["inject"] = None
+            if fired:
+                self.ctx.count("live_restart_after_concurrent_autopack")
+        finally:
+            B.unlock()
+        self.ptr += 2 if fired else 1  # (the other handle fetched one revision more - only if B's autopack planned)
+        self.T = None
+
     def sig(self):
         if not self.srevs or self.ptr == 0:
             self.fetch(1)
@@ -639,6 +691,9 @@ class Live:
 def case_live(ctx, k):
     fmt_name = ("2a", "2a", "2a", "pack-0.92", "2a", "1.9")[k % 6]
     prog = gen_live_program(ctx.rng, ctx.tier)
+    if ctx.rng.random() < 0.35:
+        prog = list(prog)
+        prog.insert(ctx.rng.randrange(0, min(3, len(prog)) + 1), ("restart",))
     try:
         live = Live(ctx, fmt_name)
     except OSError as e:  # scratch space trouble is not a verdict; anything else while building fresh repositories is
